@@ -330,4 +330,135 @@ def run(repo, rep, tier):
     o46 = [(n.lineno, unparse(n.targets[0])) for n in walk_no_nested(pc) if isinstance(n, ast.Assign) and unparse(n.targets[0]) in ('aconf.ipv4', 'aconf.ipv6')]
     rep.check('family', 'command line sets ipv4/ipv6 from the options', sorted(t for l, t in o46) == ['aconf.ipv4', 'aconf.ipv6'], pc, 'ipv4/ipv6 option stores changed')
     rep.note('platform assumption: socket.AF_INET < socket.AF_INET6 (used by the family sort)')
-    rep.note('observation: argparse stores -4/-6 as flags, so `-6 -4` and `-4 -6` both give preference [4, 6] (option order on the command line is not preserved); the statement\'s "requested order" is taken as the documented -46 / -64 meaning of the preference list')
+    # ---- rule 5b: the requested order (-46 vs -64, any spelling) reaches the preference list -----------------------------------------
+    # argparse is modelled for the four option spellings (store_true / store_const / append_const / a custom Action whose __call__ is
+    # interpreted), then the statements of process_commandline that store aconf.ipv4 / aconf.ipv6 are interpreted on the resulting
+    # namespace and the validating setter AuditConf.__setattr__ is interpreted for each store, in order (sa/listinterp.py).
+    from sa.listinterp import Interp
+    from sa.abseval import Opaque, Unknown
+    specs = {}
+    for n in walk_no_nested(pc):
+        if isinstance(n, ast.Call) and isinstance(n.func, ast.Attribute) and n.func.attr == 'add_argument':
+            opts = [a.value for a in n.args if isinstance(a, ast.Constant) and isinstance(a.value, str)]
+            if any(o in ('-4', '--ipv4', '-6', '--ipv6') for o in opts):
+                kw = {k.arg: k.value for k in n.keywords}
+                for o in opts:
+                    specs[o] = (n, kw)
+    rep.floor('family', 'IP-version option spellings declared', len(specs), 4)
+
+    class NS(dict):
+        pass
+
+    def parse(tokens):
+        ns = NS()
+        for o, (n, kw) in specs.items():
+            d = kw.get('dest')
+            dflt = kw.get('default')
+            if d is not None and isinstance(d, ast.Constant):
+                ns.setdefault(d.value, dflt.value if isinstance(dflt, ast.Constant) else None)
+        for tok in tokens:
+            n, kw = specs[tok]
+            dest = kw['dest'].value if isinstance(kw.get('dest'), ast.Constant) else tok.lstrip('-')
+            act = kw.get('action')
+            if isinstance(act, ast.Constant) and act.value == 'store_true':
+                ns[dest] = True
+            elif isinstance(act, ast.Constant) and act.value == 'store_const':
+                ns[dest] = kw['const'].value
+            elif isinstance(act, ast.Constant) and act.value == 'append_const':
+                ns[dest] = list(ns.get(dest) or []) + [kw['const'].value]
+            elif isinstance(act, ast.Constant) and act.value == 'append' or act is None:
+                raise AnalysisError('IP-version option %s takes a value (action %s): not modelled' % (tok, unparse(act) if act is not None else 'store'))
+            elif isinstance(act, ast.Name):
+                cls = [c for (m, q), c in repo.classes().items() if m == 'ssh_audit' and q == act.id]
+                if not cls:
+                    raise AnalysisError('argparse action class %s not found' % act.id)
+                call = [f for f in cls[0].body if isinstance(f, ast.FunctionDef) and f.name == '__call__']
+                if not call:
+                    raise AnalysisError('argparse action class %s has no __call__' % act.id)
+                params = [a.arg for a in call[0].args.args]
+
+                def hook(c, env, interp, ns=ns):
+                    fn = c.func
+                    if isinstance(fn, ast.Name) and fn.id == 'getattr' and len(c.args) in (2, 3) and isinstance(interp.value(c.args[0], env), NS):
+                        key = interp.value(c.args[1], env)
+                        return (True, ns.get(key, interp.value(c.args[2], env) if len(c.args) == 3 else None))
+                    if isinstance(fn, ast.Name) and fn.id == 'setattr' and len(c.args) == 3 and isinstance(interp.value(c.args[0], env), NS):
+                        ns[interp.value(c.args[1], env)] = interp.value(c.args[2], env)
+                        return (True, None)
+                    return None
+                env = {params[0]: Opaque(), 'self.dest': dest, 'self.const': kw['const'].value if isinstance(kw.get('const'), ast.Constant) else None, 'self.option_strings': [o for o in specs if specs[o][0] is n]}
+                for pname, val in zip(params[1:], [Opaque(), ns, None, tok]):
+                    env[pname] = val
+                try:
+                    fin = Interp(call_hook=hook).run(call[0].body, env)
+                except Unknown as ex:
+                    raise AnalysisError('argparse action %s.__call__ cannot be interpreted: %s' % (act.id, ex))
+                if len(fin) != 1 or fin[0].get('<forks>'):
+                    raise AnalysisError('argparse action %s.__call__ depends on a condition the analysis does not model' % act.id)
+            else:
+                raise AnalysisError('IP-version option %s uses an action the analysis does not model: %s' % (tok, unparse(act)))
+        return ns
+    # the statements of process_commandline that store the two flags (and what lies between them)
+    def nstores(node):
+        return sum(1 for x in ast.walk(node) if isinstance(x, ast.Attribute) and isinstance(x.ctx, ast.Store) and unparse(x) in ('aconf.ipv4', 'aconf.ipv6'))
+    total = nstores(pc)
+    rep.floor('family', 'stores of aconf.ipv4 / aconf.ipv6 in process_commandline', total, 1)
+    tops = []
+
+    def blocks(node, depth):
+        for fld in ('body', 'orelse', 'finalbody'):
+            b = getattr(node, fld, None)
+            if isinstance(b, list) and b and isinstance(b[0], ast.stmt):
+                idx = [i for i, st in enumerate(b) if nstores(st)]
+                if idx and sum(nstores(b[i]) for i in idx) == total:
+                    tops.append((depth, b[min(idx):max(idx) + 1]))
+                for st in b:
+                    if not isinstance(st, (ast.FunctionDef, ast.ClassDef, ast.For, ast.While)):     # a loop is interpreted as a whole
+                        blocks(st, depth + 1)
+        for h in getattr(node, 'handlers', []) or []:
+            blocks(h, depth + 1)
+    blocks(pc, 0)
+    if not tops:
+        raise AnalysisError('no single block of process_commandline holds all stores of aconf.ipv4 / aconf.ipv6')
+    tops = [max(tops, key=lambda t: t[0])[1]]
+    stores_block = tops[0]
+    FAM = {'-4': 4, '--ipv4': 4, '-6': 6, '--ipv6': 6}
+    cases = [[], ['-4'], ['-6'], ['--ipv4'], ['--ipv6'], ['-4', '-6'], ['-6', '-4'], ['--ipv4', '--ipv6'], ['--ipv6', '--ipv4'], ['-6', '--ipv4'], ['-4', '-4'], ['-6', '-4', '-6']]
+    cases = [c for c in cases if all(t in specs for t in c)]
+    order_bad = []
+    for toks in cases:
+        ns = parse(toks)
+        env = {'aconf': Opaque(), 'aconf.ipv4': False, 'aconf.ipv6': False}      # AuditConf() starts with both flags off (checked below)
+        for k, v in ns.items():
+            env['argument.' + k] = v
+        try:
+            fin = Interp(store_effects=('aconf.ipv4', 'aconf.ipv6')).run(stores_block, env)
+        except Unknown as ex:
+            raise AnalysisError('the ipv4/ipv6 stores of process_commandline cannot be interpreted: %s' % ex)
+        if len(fin) != 1 or fin[0].get('<forks>'):
+            raise AnalysisError('the ipv4/ipv6 stores depend on a condition the analysis does not model: %s' % [f.get('<forks>') for f in fin][:2])
+        pref = []
+        for kind, (text, value), k in [e for e in fin[0]['<effects>'] if e[0] == 'store']:
+            if isinstance(value, Opaque):
+                raise AnalysisError('value stored into %s is not computable' % text)
+            senv = {'self': Opaque(), 'self.ip_version_preference': pref, 'name': text.split('.')[1], 'value': value}
+            try:
+                sfin = Interp().run(sa_.body, senv)
+            except Unknown as ex:
+                raise AnalysisError('AuditConf.__setattr__ cannot be interpreted: %s' % ex)
+            if len(sfin) != 1:
+                raise AnalysisError('AuditConf.__setattr__ forks on %s' % [f.get('<forks>') for f in sfin][:2])
+        want = []
+        for t in toks:
+            if FAM[t] not in want:
+                want.append(FAM[t])
+        rep.evals()
+        if pref != want:
+            order_bad.append((toks, pref, want))
+    ainit = repo.func('auditconf', 'AuditConf.__init__')
+    flags0 = sorted(unparse(n) for n in walk_no_nested(ainit) if isinstance(n, ast.Assign) and unparse(n.targets[0]) in ('self.ipv4', 'self.ipv6'))
+    rep.check('family', 'a fresh configuration has both IP-version flags off and an empty preference list', flags0 == ['self.ipv4 = False', 'self.ipv6 = False'], ainit, 'AuditConf.__init__ flag defaults: %s' % flags0)
+    rep.check('family', 'the address-family preference equals the families requested, in the order their options were given (%d command lines)' % len(cases), not order_bad, stores_block[0],
+              'IP-version options %s give the preference list %s, requested %s: %s' % ((' '.join(order_bad[0][0]), order_bad[0][1], order_bad[0][2],
+                                                                                          'the order of -4 and -6 on the command line is lost (the documented -64 behaves like -46)' if order_bad[0][1] and sorted(order_bad[0][1]) == sorted(order_bad[0][2]) else 'a requested family is replaced or dropped') if order_bad else ('', '', '', '')),
+              stmt='ip version preference order', sample={'rule': 'family', 'command_lines': len(cases)})
